@@ -16,7 +16,7 @@ _TOK = re.compile(r"""
       \[\s*\d+\s*(?::\s*\d+\s*)?\] |
       \d+'[01xz\-m]* |
       "(?:[^"\\]|\\.)*" |
-      [\\$][^\s{}\[\]]+ |
+      [\\$][^\s]+ |
       -?\d+ |
       ,
     )""", re.X)
